@@ -9,7 +9,7 @@ CARGO_NET_OFFLINE=true cargo test --offline --lib 2>&1 | grep -E "^test result|F
 CARGO_NET_OFFLINE=true cargo test --offline --doc 2>&1 | grep -E "^test result|FAILED|failed"
 echo "--- with the change: demonstration (must fail)"
 CARGO_NET_OFFLINE=true cargo test --offline --test "$DEMO" 2>&1 | grep -E "^test result|panicked" | head -3
-git stash -q -- src
+git diff -- src > "$WT/.seeded.diff"; git apply -R "$WT/.seeded.diff"   # (not git stash: the stash is shared by all worktrees)
 echo "--- without the change: demonstration (must pass)"
 CARGO_NET_OFFLINE=true cargo test --offline --test "$DEMO" 2>&1 | grep -E "^test result" | head -3
-git stash pop -q
+git apply "$WT/.seeded.diff"; rm -f "$WT/.seeded.diff"
